@@ -144,6 +144,9 @@ func expected(root string, d Dep, u Use, how string) (words []string, base strin
 		case outPrefix:
 			return []string{filepath.Join(d.outRoot(), d.Pkg)}, base, true
 		}
+		if d.Pkg == "" {
+			return []string{"."}, base, true // the root package's directory is the build directory itself
+		}
 		return []string{d.Pkg}, base, true
 	}
 	for _, o := range outs {
@@ -605,7 +608,8 @@ func gen(t *rapid.T) Case {
 		for j := 0; j < n; j++ {
 			o := genSegment(t, false, allowUnquoted, "oseg")
 			if rapid.IntRange(0, 3).Draw(t, "subdir") == 0 {
-				o = genSegment(t, false, allowUnquoted, "odir") + "/" + o
+				// sub-directories are named s...: never the directory of another package
+				o = "s" + genSegment(t, false, allowUnquoted, "odir") + "/" + o
 			}
 			o = fmt.Sprintf("%s%d%d", o, i, j) // unique per repository
 			key := d.Pkg + "\x00" + o
